@@ -522,6 +522,9 @@ impl Property for C13 {
         format!("{:?}", sc.mode)
     }
 
+    fn work_factor(&self) -> Option<u64> {
+        Some(128)
+    }
     fn rule(&self) -> String {
         "Each run draws (entry point, algorithm, byte string, read script) from one PRNG; the script \
          decides the size of every read and where EINTR, one hard error or an early EOF falls. A run \
@@ -576,6 +579,7 @@ fn one_call(sc: &Sc, ctx: &mut Ctx) -> Outcome {
         let reader = SimReader::new(sc.data.clone(), sc.script.clone());
 
         let log = reader.log();
+        let work = Work::start();
         let res = match (sc.mode, sc.wrap) {
             (Mode::File, None) => {
                 let mut r = reader;
@@ -594,6 +598,7 @@ fn one_call(sc: &Sc, ctx: &mut Ctx) -> Outcome {
                 alg.hash_patch(&mut r)
             }
         };
+        work.stop(ctx, sc.data.len());
         let log = log.borrow();
         log.absorb(ctx, "read");
         ctx.event("mode", sc.mode as u64, sc.alg as u64);
